@@ -17,6 +17,7 @@ func init() {
 			c.run("C10-R4", "WHO-CALLS/GUARD-DOM: deletion scope", c10R4)
 			c.run("C10-R5", "LITERAL: stop-and-delete message agreement", c10R5)
 			c.run("C10-R6", "ORDER: flavour visible to whoever sees the latch; first stop wins", func(c *Ctx) { c10R6(c); c10R6Reader(c) })
+			c.run("C10-R7", "WHO-CALLS: the stop error travels unwrapped from the stop check to the reporter", c10R7)
 			c.run("C10-S", "shared with C02: success only after the digest compare and the saved==size gate", func(c *Ctx) { c02Digest(c); c02SavedSize(c) })
 		})
 }
@@ -463,4 +464,105 @@ func findLockAny(f *ssa.Function) *lockRegion {
 		return nil
 	}
 	return findLock(f, field)
+}
+
+// stopErrFuncs: functions whose returned error may be the stop check's own error value
+// (fixed point over "returns the error result of a function in the set, unwrapped").
+func (c *Ctx) stopErrFuncs() map[*ssa.Function]bool {
+	set := map[*ssa.Function]bool{c.fn("trzszTransfer.checkStop"): true}
+	changed := true
+	for changed {
+		changed = false
+		for _, f := range c.AllFns {
+			if set[f] {
+				continue
+			}
+			ei := errIndex(f.Signature)
+			if ei < 0 {
+				continue
+			}
+			eachInstr(f, func(in ssa.Instruction) {
+				r, ok := in.(*ssa.Return)
+				if !ok || set[f] {
+					return
+				}
+				for _, l := range origins(retVal(r, ei), originOpts{}) {
+					call, _ := callOf(l.V)
+					if call == nil {
+						continue
+					}
+					if callee := call.Call.StaticCallee(); callee != nil && set[callee] {
+						set[f] = true
+						changed = true
+					}
+				}
+			})
+		}
+	}
+	return set
+}
+
+var wrapCalls = map[string]bool{"trzsz.simpleTrzszError": true, "trzsz.newTrzszError": true, "fmt.Errorf": true, "fmt.Sprintf": true, "errors.New": true}
+
+// c10R7: an error that may be the stop error is never re-wrapped on its way to the reporter
+// (the peer recognises stop-and-delete by the exact message).
+func c10R7(c *Ctx) {
+	set := c.stopErrFuncs()
+	n := 0
+	for _, f := range c.AllFns {
+		eachInstr(f, func(in ssa.Instruction) {
+			call, ok := in.(*ssa.Call)
+			if !ok {
+				return
+			}
+			callee := call.Call.StaticCallee()
+			if callee == nil || !set[callee] {
+				return
+			}
+			ev := errorValueOf(call)
+			if ev == nil {
+				return
+			}
+			n++
+			// does ev flow (through interface conversions / varargs slices) into a wrapping call?
+			wrapped := ssa.Instruction(nil)
+			seen := map[ssa.Value]bool{}
+			var walk func(v ssa.Value)
+			walk = func(v ssa.Value) {
+				if seen[v] {
+					return
+				}
+				seen[v] = true
+				for _, r := range referrersOf(v) {
+					switch x := r.(type) {
+					case *ssa.MakeInterface:
+						walk(x)
+					case *ssa.ChangeInterface:
+						walk(x)
+					case *ssa.Phi:
+						walk(x)
+					case *ssa.Store:
+						// element of a varargs array
+						if ia, ok := x.Addr.(*ssa.IndexAddr); ok {
+							for _, r2 := range referrersOf(ia.X) {
+								if sl, ok := r2.(*ssa.Slice); ok {
+									walk(sl)
+								}
+							}
+						}
+					case *ssa.Call:
+						if wrapCalls[calleeID(&x.Call)] {
+							wrapped = x
+						}
+					}
+				}
+			}
+			walk(ev)
+			c.check(wrapped == nil, "stop-error-unwrapped/"+c.fnName(f)+"<-"+c.fnName(callee), c.ipos(call),
+				"an error that may be the stop error is passed on unchanged", "an error that may be 'Stopped and deleted' is re-wrapped in a new message: the peer no longer recognises it and does not delete")
+		})
+	}
+	if n < 40 {
+		c.undecided("stop-error-sites", "fewer call sites of stop-error functions than expected")
+	}
 }
